@@ -4,6 +4,7 @@
 
   Part 1: the dict codec of votelib/persist.py (`VL.Persist.serialize` / `deserialize`, the functions the driver runs).
   Part 2: the BLT writer / parser of votelib/io/blt.py at token level (`VL.Blt.dumpBlt` / `loadBlt`).
+  Part 3: the candidate / ballot section of the STV format of votelib/io/stv.py at token level (`VL.StvFile`).
 
   Reading.  `Env` is the interpreter's name resolution (`get_object`).  "Equivalent object" for the codec is equality
   of values in the algebra `PVal` (class name + constructor parameters for objects); that a class stores each
@@ -11,6 +12,7 @@
 -/
 import VotelibProofs.Lemmas.Persist
 import VotelibProofs.Lemmas.Blt
+import VotelibProofs.Lemmas.StvFile
 namespace VL.C19
 open VL VL.Persist
 
@@ -131,6 +133,7 @@ example : Serializable (.list [.callable "votelib.component.divisor._modified_di
 
 
 /-! ## Part 2 — BLT files at token level -/
+section BltPart
 open VL.Blt
 
 /-- **Round trip.**  A document whose ballots name listed candidates, are pairwise different, and whose weights are
@@ -207,5 +210,62 @@ def exDoc : Doc Weight :=
 example : WFdoc exDoc = true := by decide +kernel
 example : lexOK (dumpBlt exDoc) = true := by decide +kernel
 example : lexOK [.toks [.nat 2, .nat 1], .toks [.nat 1, .nat 1], .toks [.nat 0]] = true := by decide +kernel
+
+
+end BltPart
+
+/-! ## Part 3 — STV files: candidate / ballot section at token level -/
+namespace Stv
+open VL.StvFile
+
+/-- **Round trip** of the section `_dump_ballots` writes: with the nicknames `_candidate_nicks` assigns (initials, or
+    ordinal letters as soon as two candidates share initials) pairwise different and non-empty, ballots naming listed
+    candidates, pairwise different, weights with a multiplier spelling, no weight-1 empty ballot and no weight-1 ballot
+    whose only nickname is `end`, the reader returns the same candidates (names, withdrawn flags, order) and the same
+    ballots with their weights. -/
+theorem stv_roundtrip (d : Doc Weight) (h : wfStv d = true) :
+    loadStv (dumpStv d).1 (dumpStv d).2 = .ok (eraseDoc d, d.cands.map (fun c => (c.1, c.2.1))) :=
+  load_dump d h
+
+/-- **Exceptions of the section reader** on any token lines: STVParseError, ValueError (candidate line without a
+    name), ZeroDivisionError (multiplier `p/0X`), or a construct outside this model (BLT mode, `order=`). -/
+theorem stv_error_kinds (hs : List HLine) (vs : List VLine) (e : Err) (h : loadStv hs vs = .error e) :
+    e = Err.parseError ∨ e = Err.other "ValueError" ∨ e = Err.other "ZeroDivisionError" ∨ e = StvFile.unmodelled :=
+  loadStv_err hs vs e h
+
+/-! The two side conditions of `stv_roundtrip` on ballots are needed: both are genuine defects of the format code. -/
+
+/-- a candidate with initials `end` ("Ed N. Dav"): its weight-1 single-candidate ballot is written as the line `end`,
+    which the reader takes for the terminator (STVParseError on reload) -/
+theorem stv_nick_end_witness :
+    let d : Doc Weight := { cands := [("Ed N. Dav", false, "end"), ("Bo", false, "b")],
+                            ballots := [([0], ⟨1, true⟩), ([1], ⟨2, true⟩)] }
+    loadStv (dumpStv d).1 (dumpStv d).2 = .error Err.parseError := by
+  decide +kernel
+
+/-- an empty ballot of weight 1 is written as an empty line and silently dropped by the reader -/
+theorem stv_empty_ballot_witness :
+    let d : Doc Weight := { cands := [("Al", false, "a"), ("Bo", false, "b")], ballots := [([], ⟨1, true⟩), ([1], ⟨2, true⟩)] }
+    loadStv (dumpStv d).1 (dumpStv d).2
+      = .ok ({ cands := [("Al", false, ""), ("Bo", false, "")], ballots := [([1], 2)] }, [("Al", false), ("Bo", false)]) := by
+  decide +kernel
+
+theorem stv_roundtrip_unconditional_witness :
+    ¬ ∀ d : Doc Weight, loadStv (dumpStv d).1 (dumpStv d).2 = .ok (eraseDoc d, d.cands.map (fun c => (c.1, c.2.1))) := by
+  intro h
+  have hw := stv_nick_end_witness
+  simp only at hw
+  rw [h] at hw
+  cases hw
+
+/-- non-vacuity: duplicate initials ("Ann Berg", "Al Brown" → ordinal nicknames a, b, c), a withdrawn candidate,
+    Fraction and Decimal multipliers, an empty ballot with a multiplier, a weight-1 ballot -/
+def exStv : Doc Weight :=
+  { cands := [("Ann Berg", false, "ab"), ("Al Brown", true, "ab"), ("J. Smith", false, "js")],
+    ballots := [([0, 2], ⟨1, true⟩), ([2, 1, 0], ⟨7/3, true⟩), ([], ⟨3/2, true⟩), ([1], ⟨2, true⟩)] }
+example : wfStv exStv = true := by decide +kernel
+example : candidateNicks (exStv.cands.map (·.2.2)) = ["a", "b", "c"] := by decide +kernel
+
+end Stv
 
 end VL.C19
